@@ -19,6 +19,7 @@ pub struct C20 {
     n_rip_viewport: u64,
     n_igs_blit: u64,
     n_rip_selector: u64,
+    n_rip_text: u64,
 }
 
 /// (level prefix, command letter)
@@ -402,6 +403,8 @@ impl C20 {
             (self.igs_blit_case(k - self.n_rip_uniform - self.n_rip_mixed - self.n_igs_table - self.n_rip_pairs - self.n_igs_mixed - self.n_rip_viewport), "igs-blit")
         } else if k < self.n_rip_uniform + self.n_rip_mixed + self.n_igs_table + self.n_rip_pairs + self.n_igs_mixed + self.n_rip_viewport + self.n_igs_blit + self.n_rip_selector {
             (self.rip_selector_case(k - self.n_rip_uniform - self.n_rip_mixed - self.n_igs_table - self.n_rip_pairs - self.n_igs_mixed - self.n_rip_viewport - self.n_igs_blit), "rip-selector")
+        } else if k < self.n_rip_uniform + self.n_rip_mixed + self.n_igs_table + self.n_rip_pairs + self.n_igs_mixed + self.n_rip_viewport + self.n_igs_blit + self.n_rip_selector + self.n_rip_text {
+            (self.rip_text_case(k - self.n_rip_uniform - self.n_rip_mixed - self.n_igs_table - self.n_rip_pairs - self.n_igs_mixed - self.n_rip_viewport - self.n_igs_blit - self.n_rip_selector), "rip-text")
         } else {
             (self.random_case(ctx, k), "random")
         }
@@ -426,6 +429,53 @@ impl C20 {
         let mut bytes = b"!".to_vec();
         rip_cmd(&mut bytes, lvl, c, params.as_bytes());
         bytes.extend_from_slice(b"|@1010text at a position|Thello|L00001010|B05050F0F|C1E1E0A|O1E1E005A0A|F0202|1U0A0A28140000label|X0101|l03010105050901\n");
+        StreamCase {
+            emu: "rip".into(),
+            music: 0,
+            w: 80,
+            h: 43,
+            alloc: true,
+            prefix: vec![],
+            bytes,
+        }
+    }
+
+    fn rip_text_case(&self, k: u64) -> StreamCase {
+        // commands that carry text after their numeric fields - buttons (icon<>label<>host command), mouse regions, text,
+        // icon and file names - with a well-formed numeric part, under button styles that select each drawing variant
+        // (every single bit of the two flag words), and with icon files present in the parser's directory: a good one, one
+        // that ends after its header, one that declares 65536 x 65536 pixels, an empty one, a 1 x 1 one, a wide one
+        const TEXTS: [&str; 34] = [
+            "", "a", "OK", "icon<>label<>cmd", "<>label<>cmd", "<>label", "GOOD<>go<>^M", "GOOD.ICN<>go<>x", "SHORT<>s<>", "HUGE<>h<>", "EMPTY<>e<>", "ONE<>o<>", "WIDE<>w<>",
+            "NOPE<>n<>", "a<>b<>c<>d<>e", "<><><>", "<>", "_under^score<>_la^bel_<>((*x::y))", "$DATE$<>$TIME$<>$X$", "GOOD", "good.icn", "SHORT.ICN", "HUGE", "EMPTY", "ONE", "WIDE",
+            "NOPE", ".", "..", "tab\tx<>\x7f", "label only with spaces and a ~ tilde", "((prompt::a@b,c@d))", "<>^[<>^[", "",
+        ];
+        // (level, letter, number of numeric characters in front of the text)
+        const CMDS: [(&str, u8, usize); 12] =
+            [("1", b'U', 12), ("1", b'M', 17), ("1", b'I', 9), ("1", b'F', 6), ("1", b'R', 8), ("1", b'D', 5), ("1", 0x1b, 4), ("1", b't', 1), ("", b'T', 0), ("", b'@', 4), ("1", b'W', 1), ("1", b'E', 0)];
+        let mut r = k;
+        let text = if r % 34 == 33 { "W".repeat(300) } else { TEXTS[(r % 34) as usize].to_string() };
+        r /= 34;
+        let digits = (r % 3) as usize;
+        r /= 3;
+        // the button command under each of 24 button styles, the other commands under the first
+        let combo = r % 35;
+        let (lvl, c, nnum) = if combo < 24 { CMDS[0] } else { CMDS[(combo - 23) as usize] };
+        // button style: width / height 0, 20 or ZZ; one bit of the 16-bit flag word or of the second flag word
+        let style = if combo < 24 { combo } else { 0 };
+        let (flags, flags2): (i64, i64) = if style < 17 { (if style == 0 { 0 } else { 1 << (style - 1) }, 0) } else { (0, 1 << (style - 17)) };
+        let size = ["00", "0K", "ZZ"][(k % 3) as usize];
+        let mut bytes = b"!".to_vec();
+        rip_cmd(&mut bytes, "1", b'B', format!("{size}{size}00{}02{}{}{}{}{}00{}{}{}000000", b36(flags, 4), "0F", "01", "0E", "08", "07", b36(flags2, 2), "04", "0C").as_bytes());
+        let num: String = match digits {
+            0 => "0".repeat(nnum),
+            1 => (0..nnum).map(|i| if i % 2 == 0 { '0' } else { 'A' }).collect(),
+            _ => (0..nnum).map(|i| ['1', 'Z', '0', '5'][i % 4]).collect(),
+        };
+        // a picture in the clipboard first (buttons and icons can stamp / use it)
+        bytes.extend_from_slice(b"|1C05050K0K0");
+        rip_cmd(&mut bytes, lvl, c, format!("{num}{text}").as_bytes());
+        bytes.extend_from_slice(b"\n!|1U0A0A2814000plain<>second<>x|#|#\n");
         StreamCase {
             emu: "rip".into(),
             music: 0,
@@ -705,7 +755,7 @@ impl Prop for C20 {
     }
     fn meta(&self, _ctx: &Ctx) -> Value {
         json!({"floor_evaluations": 5000, "floor_distinct": 300, "watchdog_s": 60, "watchdog_is_violation": true, "plain_pass": "quick",
-               "assumptions": ["RIP file commands see an empty scratch directory", "blocking is observed virtually at the sleep call site (hook H3)"]})
+               "assumptions": ["RIP file commands see a scratch directory with six icon files written by the harness (good, short, huge-declared, empty, 1x1, wide)", "blocking is observed virtually at the sleep call site (hook H3)"]})
     }
     fn total(&mut self, ctx: &Ctx) -> u64 {
         self.n_rip_uniform = 2 * 3 * 25 * RIP_CMDS.len() as u64;
@@ -719,7 +769,8 @@ impl Prop for C20 {
         self.n_rip_viewport = 4 * 9 * RIP_CMDS.len() as u64;
         self.n_igs_blit = 7 * 16 * 4 * 3;
         self.n_rip_selector = 16 * 8 * RIP_CMDS.len() as u64;
-        self.n_rip_uniform + self.n_rip_mixed + self.n_igs_table + self.n_rip_pairs + self.n_igs_mixed + self.n_rip_viewport + self.n_igs_blit + self.n_rip_selector + ctx.tier.pick(30_000, 1_500_000)
+        self.n_rip_text = 34 * 3 * 35;
+        self.n_rip_uniform + self.n_rip_mixed + self.n_igs_table + self.n_rip_pairs + self.n_igs_mixed + self.n_rip_viewport + self.n_igs_blit + self.n_rip_selector + self.n_rip_text + ctx.tier.pick(30_000, 1_500_000)
     }
     fn run_case(&mut self, ctx: &mut Ctx, k: u64) {
         let (case, class) = self.case_for(ctx, k);
